@@ -28,15 +28,27 @@ def window_ends(wav_asc):
     return pos
 
 
-def run_once(ctx, mono, d, truth, order_names, lo, hi, chunk, wit0, default_window=False):
+def run_once(ctx, mono, d, truth, order_names, lo, hi, chunk, wit0, default_window=False, wunit=None, pre='absent'):
     n_w = truth.n_wav
     wav_desc = truth.wav[::-1]
     must = [j for j in range(n_w) if lo < wav_desc[j] < hi]
     may = [j for j in range(n_w) if wav_desc[j] == lo or wav_desc[j] == hi]
+    if wunit is not None:
+        # the window given in another length unit: the conversion may move an end that sits on a tabulated wavelength
+        may = [j for j in range(n_w) if abs(wav_desc[j] - lo) <= 1e-12 * lo or abs(wav_desc[j] - hi) <= 1e-12 * hi]
+        must = [j for j in must if j not in may]
     shutil.rmtree(os.path.join(d, 'convolved'), ignore_errors=True)
+    if pre == 'empty':          # the sub-directory is already there
+        os.mkdir(os.path.join(d, 'convolved'))
     max_ram = (chunk + 0.5) * 8.0 * truth.n_models * truth.n_ap / 1024. ** 3
-    wit = dict(wit0, window=(lo, hi), chunk=chunk, wav_desc=wav_desc, must=[j + 1 for j in must], may=[j + 1 for j in may])
-    kw = {} if default_window else dict(wav_min=lo * u.micron, wav_max=hi * u.micron)
+    wit = dict(wit0, window=(lo, hi), chunk=chunk, wav_desc=wav_desc, must=[j + 1 for j in must], may=[j + 1 for j in may],
+               window_unit=str(wunit or 'micron'), convolved_dir=pre)
+    if default_window:
+        kw = {}
+    elif wunit is None:
+        kw = dict(wav_min=lo * u.micron, wav_max=hi * u.micron)
+    else:
+        kw = dict(wav_min=(lo * u.micron).to(wunit), wav_max=(hi * u.micron).to(wunit))
     table = None
     exc = None
     with effects.trace() as tr:
@@ -52,13 +64,21 @@ def run_once(ctx, mono, d, truth, order_names, lo, hi, chunk, wit0, default_wind
     if [f for f in ondisk if f not in wrote]:
         ctx.violation('trace-vs-listing', 'a file is present that was never opened for writing during the call', dict(wit, traced=wrote, listing=ondisk))
     wrote = sorted(ondisk)
-    idx = []
+    # which wavelength a file is for is read from the file (FILTWAV), not from its name
+    idx, file_of = [], {}
     for name in wrote:
         try:
-            idx.append(int(name[2:5]) - 1)
-            assert name == 'MO%03d.fits' % (idx[-1] + 1)
+            fw = float(convcheck.read_convolved_plain(os.path.join(d, 'convolved', name))['filtwav'])
+            j = int(np.argmin(np.abs(wav_desc - fw)))
+            assert abs(wav_desc[j] / fw - 1) <= 1e-12
         except Exception:
-            ctx.violation('unexpected-file', 'unexpected file written: %s' % name, wit)
+            ctx.violation('unexpected-file', 'a file was written that is not a convolved-flux table for one of the SED wavelengths: %s' % name, wit)
+            continue
+        if j in file_of:
+            ctx.violation('files:duplicate', 'more than one file for one SED wavelength', dict(wit, files=[file_of[j], name]))
+            continue
+        file_of[j] = name
+        idx.append(j)
     empty = not must
     if empty and not may:
         # empty window: zero files; table-with-no-names or an exception both accepted
@@ -91,7 +111,7 @@ def run_once(ctx, mono, d, truth, order_names, lo, hi, chunk, wit0, default_wind
     for j in idx:
         if j < 0 or j >= n_w:
             continue
-        g = convcheck.read_convolved_plain(os.path.join(d, 'convolved', 'MO%03d.fits' % (j + 1)))
+        g = convcheck.read_convolved_plain(os.path.join(d, 'convolved', file_of[j]))
         iw = n_w - 1 - j                         # index into the ascending truth arrays
         ref_f, ref_e = truth.flux[rows][:, :, iw], truth.err[rows][:, :, iw]
         ctx.event('file:checked')
@@ -114,11 +134,11 @@ def run_once(ctx, mono, d, truth, order_names, lo, hi, chunk, wit0, default_wind
         ctx.violation('table:unreadable', 'returned table cannot be read: %r' % (e,), wit)
         return
     named = {n.strip(): w for n, w in zip(tn, tw) if n.strip()}
-    want = {'MO%03d' % (j + 1): wav_desc[j] for j in idx if 0 <= j < n_w}
+    want = {file_of[j].replace('.fits', '').replace('.gz', ''): wav_desc[j] for j in idx if 0 <= j < n_w}
     if set(named) != set(want) or any(abs(named[k] / want[k] - 1) > 1e-12 for k in want):
         ctx.violation('table:does-not-name-files', 'returned table does not name exactly the written files at their wavelengths',
                       dict(wit, table=named, files=want))
-    return wrote
+    return sorted(idx)
 
 
 def run(ctx):
@@ -134,7 +154,8 @@ def run(ctx):
                'an empty window must write zero files; returning an empty table or raising are both accepted',
                'file-effect trace: sys.addaudithook open/remove events')
     ctx.require_events('mono:run', 'file:checked', 'chunk-invariance', 'cube:nearest-slice')
-    ctx.require_regimes('window:empty', 'window:single', 'chunk<n', 'chunk=n', 'window:default')
+    ctx.require_regimes('window:empty', 'window:single', 'chunk<n', 'chunk=n', 'window:default', 'window:other-unit', 'convolved-dir:pre-existing',
+                        'package:sed-subdirectories', 'cube:no-uncertainties', 'cube:named-and-wavelength-filters', 'cube:aperture-dependent')
     ipk = 0
     sizes = list(range(2, nexh + 1)) + ([6, 9] if ctx.quick else [7, 8, 9])
     for n_w in sizes:
@@ -146,7 +167,10 @@ def run(ctx):
             truth = convcheck.make_truth(rng, n_m, n_ap, n_w, names=gen.model_names(rng, n_m))
             d = ctx.newdir('mo')
             order = list(rng.permutation(n_m))
-            pkg.build_v1(d, truth, table_order=order, desc=rng.random(n_m) < 0.5, gz=rng.random(n_m) < 0.3, fmt='D')
+            lsub = int(rng.choice([0, 0, 1, 2]))          # SEDs in seds/<first letters>/ (documented layout for large packages)
+            if lsub:
+                ctx.regime('package:sed-subdirectories')
+            pkg.build_v1(d, truth, table_order=order, desc=rng.random(n_m) < 0.5, gz=rng.random(n_m) < 0.3, fmt='D', length_subdir=lsub)
             shutil.rmtree(os.path.join(d, 'convolved'), ignore_errors=True)
             order_names = [truth.names[i] for i in order]
             wit0 = dict(n_models=n_m, n_ap=n_ap, n_wav=n_w)
@@ -158,8 +182,14 @@ def run(ctx):
             for (lo, hi) in windows:
                 sets = {}
                 chunks = list(range(1, n_w + 1)) if n_w <= nexh else sorted(set([1, 2, n_w // 2 + 1, n_w]))
+                wunit = [None, None, u.nm, u.mm, u.AA][int(rng.integers(5))]
+                if wunit is not None:
+                    ctx.regime('window:other-unit')
                 for c in chunks:
-                    wrote = run_once(ctx, mono, d, truth, order_names, lo, hi, c, wit0)
+                    pre = 'empty' if rng.random() < 0.3 else 'absent'
+                    if pre == 'empty':
+                        ctx.regime('convolved-dir:pre-existing')
+                    wrote = run_once(ctx, mono, d, truth, order_names, lo, hi, c, wit0, wunit=wunit, pre=pre)
                     inside = sum(1 for w in truth.wav if lo < w < hi)
                     ctx.case(('win', ipk, lo, hi, c, ctx.shard), nontrivial=inside >= 1,
                              sample=dict(wit0, window=(lo, hi), chunk=c, wav=truth.wav, written=wrote) if inside == 1 and len(ctx.samples) < 2 else None)
@@ -179,10 +209,16 @@ def run(ctx):
     # ---- cube packages: wavelength instead of a filter name -> nearest tabulated slice ----
     for it in range(6 if ctx.quick else 30):
         n_m, n_w = int(rng.integers(1, 6)), int(rng.integers(2, 10))
-        truth = convcheck.make_truth(rng, n_m, 1, n_w, names=gen.model_names(rng, n_m))
+        multi = bool(it % 4 >= 2)                    # aperture-dependent cube package: the slice is then interpolated in aperture per distance
+        truth = convcheck.make_truth(rng, n_m, 4 if multi else 1, n_w, names=gen.model_names(rng, n_m))
         d = ctx.newdir('cu')
         desc = bool(rng.random() < 0.5)
-        pkg.build_v2(d, truth, aperture_dependent=False, descending_wav=desc)
+        with_unc = bool(it % 3 != 1)                 # uncertainties are an optional part of a cube
+        if not with_unc:
+            ctx.regime('cube:no-uncertainties')
+        if multi:
+            ctx.regime('cube:aperture-dependent')
+        pkg.build_v2(d, truth, aperture_dependent=multi, logd_step=0.1, descending_wav=desc, with_unc=with_unc)
         req = []
         for _ in range(int(rng.integers(1, 5))):
             w = float(gen.loguniform(rng, truth.wav[0] * 0.5, truth.wav[-1] * 2))
@@ -196,17 +232,49 @@ def run(ctx):
         if not req:
             continue
         lw, lc = gen.make_law_arrays(rng, n=10, lo=0.01, hi=1e4)
+        flist = [w * u.micron for w in req]
+        named = {}
+        if it % 2 == 0:
+            # a named (convolved) filter among the wavelengths, at a random position of the list
+            ctx.regime('cube:named-and-wavelength-filters')
+            nf = gen.conv_grid(rng, n_m, 1)[:, :, 0]
+            if multi:
+                nf = np.repeat(nf, 4, axis=1)          # flat in aperture: the value is the same at every radius
+            pkg.write_convolved_file(os.path.join(d, 'convolved', 'NAMED1.fits'), truth.names, truth.apertures if multi else None, nf, nf * 0.1, 3.3)
+            pos = int(rng.integers(len(flist) + 1))
+            flist.insert(pos, 'NAMED1')
+            named[pos] = nf[:, 0]
         try:
-            ft = gen.make_fitter([w * u.micron for w in req], np.ones(len(req)), d, gen.build_law(lw, lc), (0., 1.), use_memmap=False)
+            theta = np.ones(len(flist))
+            if multi:       # apertures that fall inside the table at every distance of the grid
+                theta = np.array([float(gen.loguniform(rng, truth.apertures[0] * 1.01, truth.apertures[-1] * 0.5)) for _ in flist]) / 1000.0
+            ft = gen.make_fitter(flist, theta, d, gen.build_law(lw, lc), (0., 1.), (1.0, 2.0), use_memmap=False)
         except Exception as exc:
-            ctx.violation('cube:fitter-raised', 'Fitter with wavelength filters raised: %r' % (exc,), {'requested': req, 'cube_wav': truth.wav, 'cube_desc': desc})
+            ctx.violation('cube:fitter-raised:%s' % ('no-uncertainties' if not with_unc else type(exc).__name__),
+                          'Fitter with wavelength filters raised: %r' % (exc,),
+                          {'requested': [str(x) for x in flist], 'cube_wav': truth.wav, 'cube_desc': desc, 'cube_has_uncertainties': with_unc})
+            ctx.rmdir(d)
             continue
         got = np.asarray(ft.models.fluxes.to(u.mJy).value, float)
         names = [str(x).strip() for x in ft.models.names]
         rows = [truth.index(n) for n in names]
-        for f, w in enumerate(req):
+        for f, w in enumerate(flist):
+            if f in named:
+                gcol = got[:, f] if not multi else got[:, 0, f] * float(ft.models.distances.to(u.kpc).value[0]) ** 2
+                if not O.close(gcol, named[f][rows], 1e-12 if not multi else 1e-9):
+                    ctx.violation('cube:named-filter-wrong-column', 'a named filter listed among wavelength filters did not get its own convolved fluxes',
+                                  {'requested': [str(x) for x in flist], 'position': f})
+                continue
+            w = float(w.value)
             j = int(np.argmin(np.abs(truth.wav - w)))
             ctx.event('cube:nearest-slice')
+            if multi:
+                dk = np.asarray(ft.models.distances.to(u.kpc).value, float)
+                ref = np.array([[float(O.interp_aperture(truth.apertures, truth.flux[r, :, j], theta[f] * dd * 1000.0)) / dd ** 2 for dd in dk] for r in rows])
+                if got.shape[:2] != ref.shape or not O.close(got[:, :, f], ref, 1e-9):
+                    ctx.violation('cube:not-nearest-slice', 'a wavelength given instead of a filter name did not select the slice at the nearest tabulated wavelength (aperture-dependent package)',
+                                  {'requested': w, 'cube_wav': truth.wav, 'cube_desc': desc, 'nearest': float(truth.wav[j]), 'got': got[:, :, f][0], 'expected': ref[0]})
+                continue
             if not O.close(got[:, f], truth.flux[rows][:, 0, j], 1e-12):
                 ctx.violation('cube:not-nearest-slice', 'a wavelength given instead of a filter name did not select the slice at the nearest tabulated wavelength',
                               {'requested': w, 'cube_wav': truth.wav, 'cube_desc': desc, 'nearest': float(truth.wav[j]), 'got': got[:, f], 'expected': truth.flux[rows][:, 0, j]})
